@@ -70,8 +70,11 @@ def arrivals(ctx, P, iters):
             wr, sm = writes[0], samples[0]
             key = wr.d["target"][len("self.event_dates_dict"):]
             vn = wr.d["value_node"]
-            okk = isinstance(vn, ast.Call) and call_name(vn) == "increment_time" and len(vn.args) == 2 and unparse(vn.args[0]) == unparse(wr.d["target_node"]) and \
-                isinstance(vn.args[1], ast.Call) and call_name(vn.args[1]) == "inter_arrival"
+            okk = isinstance(vn, ast.Call) and call_name(vn) == "increment_time" and len(vn.args) == 2 and not vn.keywords
+            if okk:
+                same = [a for a in vn.args if unparse(a) == unparse(wr.d["target_node"])]
+                smp = [a for a in vn.args if isinstance(a, ast.Call) and call_name(a) == "inter_arrival"]
+                okk = len(same) == 1 and len(smp) == 1
             if not okk:
                 viol("not-accumulated-in-place", wr.text[:90], "next date must be increment_time(<the same entry>, inter_arrival(...))", wr.where, st)
             args = sm.d["args"]
@@ -260,7 +263,11 @@ def service_duration(ctx, P, iters):
                     forms = ("self.now+%s.service_time" % tok, "self.increment_time(%s.service_start_date,%s.service_time)" % (tok, tok), "self.increment_time(self.now,%s.service_time)" % tok,
                              "%s.service_start_date+%s.service_time" % (tok, tok))
                     ob.ok("%s.%s:%s" % (cls.name, m, val[:40]), "%s.%s: %s" % (view.name, m, " -> ".join(x.text[:45] for x in evs[:i + 1])))
-                    if val not in forms:
+                    try:
+                        terms = rules.sum_terms(val)
+                    except SyntaxError:
+                        terms = None
+                    if val not in forms and terms not in (sorted(["self.now", tok + ".service_time"]), sorted([tok + ".service_start_date", tok + ".service_time"])):
                         if (cls.name, m, "form") not in done:
                             done.add((cls.name, m, "form"))
                             ctx.violation(ob, "R7.service-duration", "%s.%s" % (cls.name, m), e.text, "end-not-start-plus-service-time",
